@@ -53,6 +53,32 @@ func TestC09(t *testing.T) {
 			forcedFaults = append(forcedFaults, Fault{Kind: "extend", Path: "rtc/b.bin", N: rapid.SampledFrom([]int{1, 10, 70000}).Draw(rt, "rtcext"), Seed: 4})
 			Ev.Probe("all_blocks_read_then_whole_copy_of_extended_file")
 		}
+		if rapid.IntRange(0, 9).Draw(rt, "twinold") == 0 {
+			// two identical old files, both kept (read one after the other); the second one is cut short:
+			// what is missing from it is exactly what the first one had there
+			n := rapid.SampledFrom([]int{40000, BlockSize, BlockSize + 30000, 3 * BlockSize}).Draw(rt, "twinsize")
+			b := Bytes(rapid.Uint64().Draw(rt, "twinseed"), n)
+			for _, p := range []string{"tw/a.bin", "tw/b.bin"} {
+				pair.Old[p] = &Entry{Kind: KFile, Data: b}
+				pair.New[p] = &Entry{Kind: KFile, Data: b}
+			}
+			pair.Old.Normalize()
+			pair.New.Normalize()
+			forcedFaults = append(forcedFaults, Fault{Kind: "truncate", Path: "tw/b.bin", N: rapid.SampledFrom([]int{10000, n / 2, n - 1, max(1, n-n%BlockSize-1)}).Draw(rt, "twincut")})
+			Ev.Probe("identical_old_files_second_one_truncated")
+		}
+		shortTail := rapid.IntRange(0, 9).Draw(rt, "shorttail") == 0
+		if shortTail {
+			// a kept file of a few blocks plus a short tail; the only damage is in that tail
+			n := rapid.IntRange(1, 3).Draw(rt, "stblocks")*BlockSize + rapid.SampledFrom([]int{1, 100, 5000, 20000}).Draw(rt, "sttail")
+			b := Bytes(rapid.Uint64().Draw(rt, "stseed"), n)
+			pair.Old["st/keep.bin"] = &Entry{Kind: KFile, Data: b}
+			pair.New["st/keep.bin"] = &Entry{Kind: KFile, Data: b}
+			pair.Old.Normalize()
+			pair.New.Normalize()
+			forcedFaults = append(forcedFaults, Fault{Kind: "flip", Path: "st/keep.bin", Off: n - 1 - rapid.IntRange(0, n%BlockSize-1).Draw(rt, "stflip")})
+			Ev.Probe("kept_file_damaged_only_in_its_short_last_block")
+		}
 		dir, cleanup := RunDir()
 		defer cleanup()
 		oldDir, newDir, dmgDir, outDir := filepath.Join(dir, "old"), filepath.Join(dir, "new"), filepath.Join(dir, "dmg"), filepath.Join(dir, "out")
@@ -77,6 +103,9 @@ func TestC09(t *testing.T) {
 					ffs = append(ffs, f)
 				}
 			}
+			if shortTail && rapid.Bool().Draw(rt, "stonly") {
+				ffs = nil
+			}
 			damaged, applied = ApplyFaults(pair.Old, append(ffs, forcedFaults...))
 		}
 		pristine := pair.Old.Diff(damaged) == ""
@@ -88,6 +117,12 @@ func TestC09(t *testing.T) {
 		// is retried through the same checking pool (its verdict cache survives)
 		retry := rapid.IntRange(0, 4).Draw(rt, "retry") == 0
 		failAt := rapid.IntRange(1, 12).Draw(rt, "failread")
+		// or: one Seek on the old build fails (a transient error), nothing is retried: the application
+		// either reports an error or is right
+		failSeek := 0
+		if !retry && rapid.IntRange(0, 3).Draw(rt, "seekfails") == 0 {
+			failSeek = rapid.IntRange(1, 16).Draw(rt, "failseek")
+		}
 		var keptSK lake.Pool
 		var keptInner *Pool
 		ar := ApplyFresh(patch, dmgDir, outDir, ApplyOpts{
@@ -96,6 +131,9 @@ func TestC09(t *testing.T) {
 				keptInner = p
 				if retry {
 					p.FailRead = failAt
+				}
+				if failSeek > 0 {
+					p.FailSeek = failSeek
 				}
 			},
 			WrapPool: func(inner lake.Pool, c *tlc.Container) lake.Pool {
@@ -120,11 +158,35 @@ func TestC09(t *testing.T) {
 			sk := keptSK
 			ar = ApplyFresh(patch, dmgDir, outDir, ApplyOpts{WrapPool: func(inner lake.Pool, c *tlc.Container) lake.Pool { return sk }})
 		}
+		if !pristine && ar.Err != nil && ar.Panic == "" && keptSK != nil && !retry && failSeek == 0 && (rapid.IntRange(0, 2).Draw(rt, "again") == 0 || shortTail) {
+			// the application was refused; it is tried once more through the same checking pool (the
+			// old build is still damaged the same way): refused again, or right
+			Ev.Probe("second_application_through_the_same_safekeeper_after_a_refusal")
+			outDir = filepath.Join(dir, "out-again")
+			sk := keptSK
+			// (the pool under the safekeeper stays the one it was made with; how it slices its reads
+			// may change from one application to the next)
+			as := drawSlicer(rt, "againslice")
+			if shortTail && rapid.Bool().Draw(rt, "againchunks") {
+				as = NewSlicer(5, rapid.Uint64().Draw(rt, "againchunkseed"))
+			}
+			if as != nil && keptInner != nil {
+				keptInner.Slice = as
+			}
+			ar = ApplyFresh(patch, dmgDir, outDir, ApplyOpts{WrapPool: func(inner lake.Pool, c *tlc.Container) lake.Pool { return sk }})
+		}
 		if ar.Panic != "" {
 			Violation(rt, "C09/panic", "apply through the safekeeper panicked at %s: %s (patch %s, faults %v)", ar.Stage, ar.Panic, desc, faultStrings(applied))
 			return
 		}
-		if pristine {
+		seekFault := failSeek > 0 && keptInner != nil && keptInner.Faults > 0
+		if seekFault {
+			Ev.Fault("transient_seek_error_on_old_build", 1)
+		}
+		if pristine && seekFault && ar.Err != nil {
+			// an I/O error was injected and an error came back: fine
+			Ev.Probe("injected_seek_error_reported")
+		} else if pristine {
 			if ar.Err != nil {
 				Violation(rt, "C09/pristine-rejected", "an undamaged old build was rejected at %s: %v (patch %s)\nold %v", ar.Stage, trimErr(ar.Err), desc, pair.Old.Describe())
 				return
